@@ -30,7 +30,7 @@ type rgRunner struct {
 	forceElim  []int // replay: the members to eliminate in the next sync (nil = choose at random)
 	forceRel   []int // replay: the members to release after the next sync (nil = choose at random)
 	forced     bool
-	backward   bool // the status went back to pending after the start (outside the histories of C19 / C20)
+	backward   bool          // the status went back to pending after the start (outside the histories of C19 / C20)
 	async      bool          // this history delays the ReleasePlayers reports of its tables (other operations come in between)
 	inflight   map[int][]int // table id -> players who have left that table and whose release has not been reported yet
 	delayNext  bool          // replay: the release of the sync at hand is reported later
@@ -601,6 +601,25 @@ func (g *rgRunner) tableIDs() []int {
 	return ids
 }
 
+// smallBound: the bound of theorem C20.rebalancing_settles_small on the number of sweeps that ask for something
+// (2(e+1)max + 5T + 2e + 2(max+3)u + 1 with T tables, e spare and u missing tables), on the regulator's own counters.
+// No bound of the form T + C holds (C20.sweeps_exceed_tables_plus_ten).
+func (g *rgRunner) smallBound() int {
+	n, t := g.r.GetPlayerCount(), g.r.GetTableCount()
+	r := 0
+	if g.max > 0 {
+		r = (n + g.max - 1) / g.max
+	}
+	e, u := t-r, r-t
+	if e < 0 {
+		e = 0
+	}
+	if u < 0 {
+		u = 0
+	}
+	return 2*(e+1)*g.max + 5*t + 2*e + 2*(g.max+3)*u + 1
+}
+
 // settle: with no registrations and no eliminations, sweep all tables until a whole sweep
 // asks for nothing (C20).  Returns the number of sweeps that asked for something.
 func (g *rgRunner) settle(rng *Rng, limit int) int {
@@ -768,7 +787,8 @@ func runRG(dir string, seed uint64, n int) {
 				g.sync(900+rng.Intn(5), rng.Intn(3), rng)
 			default:
 				if len(g.members) > 0 {
-					limit := 10 + len(g.members)
+					g.flushAll()
+					limit := g.smallBound() // of the state the settle phase starts from
 					sw := g.settle(rng, limit)
 					o.Count(fmt.Sprintf("rg.settle_sweeps.%d", sw))
 					if sw > maxSweeps {
